@@ -36,8 +36,12 @@ What is modelled (jsonpb.go line numbers)
   `ProtoJSONPacker` step is the identity.
 
 TRUSTED BASE (not modelled / assumed)
-* JSON *text* ⇄ tree (lexing, escaping, number syntax, duplicate members: the tree is a finite map) is
-  `encoding/json`'s and stays outside; `Json.render` is only the canonical text used by the differential probe.
+* JSON *text* ⇄ tree (lexing, escaping, number syntax) is `encoding/json`'s and stays outside; `Json.render` is only
+  the canonical text used by the differential probe.  An object is read as a finite map: `getKey` takes the first
+  member of a name where Go keeps the last — the same thing on the objects `toJson` writes, whose member names are
+  pairwise distinct (`toJsonAt_members_distinct`).
+* `hubAnyTypes` (what the application's interface registry resolves) is hand-written; every probe run compares it
+  with the real registry (`anytypes` line).
 * Four leaf renderings are used through the record `Leaves`; the general theorems assume `LeavesOK` (each rendering
   is read back by its parser on the well-typed values):
     1. `b64` / `unb64`         base64.StdEncoding of a byte string;
